@@ -125,3 +125,12 @@ package p2pmux
 //@     set hdr = sumlen(lens(res0), len(res0))
 //@   fnspec muxFunc:
 //@     pure
+//@
+//@ // a failed ask (demultiplexing error, unknown channel, closed hub) is answered negatively, never with an empty success
+//@ func (*muxCore).serveLoop$1
+//@   noframe
+//@   requires mc != nil
+//@   ghostvar failed = false
+//@   ensures [negative] ghost(failed) ==> ret < 0
+//@   after call (*muxCore).serveLoop$1$1:
+//@     set failed = res0 != nil
